@@ -31,6 +31,7 @@ def check(repo, rep, tier):
     rc.r_items_immutable(m, rep, 'R2.1')
     rc.r_leaf_loop(m, rep, 'R2.2')
     rc.r_best(m, rep, 'R2.2')
+    rc.r_beam(m, rep, 'R2.2')          # leaf categories are among the beam-admitted supertags: the candidate loop takes at most pruning_size of them, best first, and stops below the threshold
     rc.r_chart(m, rep, 'R2.1')
     rc.r_search_loop(m, rep, 'R2.3')
     rc.r_expansion_unconditional(m, rep, 'R2.3')   # every accepted entry is expanded: no derivation is left out of the search
